@@ -1,6 +1,7 @@
 from typing import Any, Callable, Dict, Optional, Union
 
 from tartiflette.coercers.common import CoercionResult
+from tartiflette.coercers.literals.utils import relocate_default_value_errors
 from tartiflette.constants import UNDEFINED_VALUE
 from tartiflette.language.ast import NullValueNode, VariableNode
 from tartiflette.utils.errors import graphql_error_from_nodes
@@ -100,6 +101,8 @@ async def argument_coercer(
             ctx,
             variables=variable_values,
         )
+        if value_node is argument_definition.default_value:
+            relocate_default_value_errors(coercion_result, node)
 
     if is_invalid_value(coercion_result):
         return coercion_result
